@@ -293,6 +293,63 @@ def ob_maxwell_fd():
     return held("curlE-ikH %.1e, curlH+ikE %.1e, divE %.1e, divH %.1e" % (e1, e2, e3, e4))
 
 
+def _api_potential_cases():
+    return [("laplace", None), ("helmholtz", 1.7), ("helmholtz", 1.1 + 0.6j), ("helmholtz", 1.3j), ("helmholtz", -0.4j), ("modified_helmholtz", 0.9)]
+
+
+def replay_api_potential(order):
+    """Potential operators created through the public factories, with an explicit parameter object of regular order `order` (different from the global
+    default 4), against an independent numpy sum of the closed-form kernel over the points of triangle_gauss.rule(order)."""
+    import importlib
+    import warnings
+
+    import bempp_cl.api as api
+    from bempp_cl.api.integration.triangle_gauss import rule
+    from vlib import zoo as Z
+
+    warnings.simplefilter("ignore")
+    g = Z.grid_with_domains("octa")
+    par = Z.params(order, 2)
+    pts = np.array([[2.1, -0.3, 0.4], [0.2, 2.4, -1.9], [0.5, 0.3, 2.2]])
+    q, w = rule(order)
+    rng = np.random.RandomState(3)
+    bad, worst = {}, 0.0
+    for fam, k in _api_potential_cases():
+        mod = importlib.import_module("bempp_cl.api.operators.potential." + fam)
+        for layer, kind, deg in (("single_layer", "DP", 0), ("double_layer", "P", 1)):
+            sp = api.function_space(g, kind, deg)
+            c = rng.randn(sp.global_dof_count) + 1j * rng.randn(sp.global_dof_count)
+            args = (sp, pts) if k is None else (sp, pts, k)
+            val = np.asarray(getattr(mod, layer)(*args, parameters=par).evaluate(api.GridFunction(sp, coefficients=c)))[0]
+            kk = 0.0 if k is None else (1j * k if fam == "modified_helmholtz" else k)
+            ref = np.zeros(pts.shape[1], dtype=complex)
+            for E in range(g.number_of_elements):
+                y = g.vertices[:, g.elements[0, E]][:, None] + g.jacobians[E] @ q
+                fv = sp.evaluate(E, q)[0]          # (ns, nq), multipliers applied
+                dens = sum(c[sp.local2global[E, f]] * fv[f] for f in range(fv.shape[0]))
+                for i in range(pts.shape[1]):
+                    d = pts[:, i][:, None] - y
+                    r = np.linalg.norm(d, axis=0)
+                    G = np.exp(1j * kk * r) / (4 * np.pi * r)
+                    if layer == "double_layer":
+                        # d/dn_y G = (n_y . (x - y)) (1 - i k r) e^{ikr} / (4 pi r^3)
+                        G = (g.normals[E] @ d) * (1 - 1j * kk * r) * np.exp(1j * kk * r) / (4 * np.pi * r ** 3)
+                    ref[i] += g.integration_elements[E] * np.sum(w * G * dens)
+            e = float(np.abs(val - ref).max() / np.abs(ref).max())
+            worst = max(worst, e)
+            if e > 1e-11:
+                bad["%s.%s k=%s order=%d" % (fam, layer, k, order)] = e
+    return {"violates": bool(bad), "failing": bad, "worst": worst}
+
+
+def ob_api_potential(order):
+    r = replay_api_potential(order)
+    if r["violates"]:
+        return violated("potential operator created by the public factory differs from the closed-form kernel sum over the order-%d quadrature points: %s" % (order, r["failing"]),
+                        witness=r["failing"], signature="api-potential", replay={"callable": "checks.c08:replay_api_potential", "kwargs": {"order": order}, "confirmed": True})
+    return held("12 factory-made potentials (real, complex and +/- imaginary k) equal the kernel sum to %.1e at order %d" % (r["worst"], order))
+
+
 def main():
     run = Run("C08", "other")
     thorough = run.tier == "thorough"
@@ -330,8 +387,11 @@ def main():
     for kind in ("single_layer", "double_layer", "electric_field", "magnetic_field"):
         run.add("far-field-limit.%s" % kind, "bounded", ob_far_limit, kind)
     run.add("maxwell.finite-differences", "bounded", ob_maxwell_fd)
+    for order in (2, 7):
+        run.add("api-potential==kernel-sum[order %d]" % order, "bounded", ob_api_potential, order)
     run.bound("potential / Maxwell assembler contracts: <= 4 elements, 2 quadrature points, 2 evaluation points, generic values")
     run.bound("far-field limit: octahedron, r = 1e3, 1e4, k = 1.3 and 1.1+0.002i, three directions")
+    run.bound("factory-made potentials: octahedron, 3 points, 6 (family, k) cases x 2 layers, explicit orders 2 and 7 (global default 4)")
     run.bound("Maxwell finite differences: one point, h = 1e-3, order 8")
     run.assume("analytic: lim r e^{-ikr} G(r x^, y) = exp(-ik x^.y)/(4 pi) (complex k), and its derivative form for the double layer")
     run.assume("curl H = -ik E and div E = 0 need integration by parts over the RWG density (divergence theorem on each element); not mechanised")
